@@ -217,6 +217,7 @@ def to_coq(case, obs):
     if obs.get('skipped'):
         return None
     if rounding_hazard(obs):
+        obs.setdefault('stats', {})['float_rounding_hazard_judged_by_D_only'] = 1
         return None
     ok = obs['exception'] is None and obs['time'] is not None
     return ('{| c_tb := %s; c_sync := %s; c_rands := %s; c_lns := %s; c_draws := %s; o_obs := %s; '
